@@ -295,6 +295,7 @@ macro_rules! bx {
 }
 
 pub fn build(name: &str, rng: &mut Rng) -> Built {
+    rustradio::verif::set_stream_size(STREAM_BYTES.load(std::sync::atomic::Ordering::SeqCst));
     let mut params: Vec<u64> = vec![];
     let alphabets: Vec<(u64, Vec<u64>)>;
     let rig = match name {
@@ -435,12 +436,13 @@ pub fn build(name: &str, rng: &mut Rng) -> Built {
 }
 
 /// DSP blocks with a Lean model (C11)
-pub const DSP_NAMES: &[&str] = &["fir", "fir_c", "hilbert", "iir1", "fastfm", "fftx"];
+pub const DSP_NAMES: &[&str] = &["fir", "fir_c", "hilbert", "iir1", "fastfm", "fftx", "sigsrc_f", "sigsrc_c", "quaddemod", "fftfx"];
 
 pub const HAND_NAMES: &[&str] = &[
     "skip", "delay", "resampler", "rtlsdr", "fir", "fir_c", "fftfilter", "fftfilter_f", "hilbert", "fftstream",
     "auenc", "zerocross", "symsync", "hdlc", "il2p", "quaddemod", "fastfm", "iir1", "s2pdu", "v2s",
     "totext", "cma", "midpointer", "wpcr", "nullsink", "vectorsink", "zerocross_clk", "symsync_clk",
+    "sigsrc_f", "sigsrc_c",
 ];
 
 /// small integer-valued floats: all sums in the filters are exact
@@ -460,7 +462,20 @@ fn complex_alpha(rng: &mut Rng) -> (u64, Vec<u64>) {
     (0, tbl)
 }
 
+/// complex samples with arbitrary float parts (fractions, huge, tiny, signed zeros, infinities, NaN)
+fn complex_any_alpha(rng: &mut Rng) -> (u64, Vec<u64>) {
+    let parts = [-1.0f32, -0.7, -0.3, 0.1, 0.3, 0.7071068, 1.0, 0.0, -0.0, 1e-30, -3e20, 2.5e7, f32::INFINITY, f32::NEG_INFINITY, f32::NAN, 1e-42];
+    let mut tbl = vec![];
+    for _ in 0..24 {
+        let re = *rng.pick(&parts);
+        let im = *rng.pick(&parts);
+        tbl.push(re.to_bits() as u64 | ((im.to_bits() as u64) << 32));
+    }
+    (0, tbl)
+}
+
 pub fn build_hand(name: &str, rng: &mut Rng) -> Built {
+    rustradio::verif::set_stream_size(STREAM_BYTES.load(std::sync::atomic::Ordering::SeqCst));
     let mut params: Vec<u64> = vec![];
     let alphabets: Vec<(u64, Vec<u64>)>;
     let rig = match name {
@@ -525,6 +540,14 @@ pub fn build_hand(name: &str, rng: &mut Rng) -> Built {
             params = taps.iter().map(|t| t.re.to_bits() as u64 | ((t.im.to_bits() as u64) << 32)).collect();
             alphabets = vec![complex_alpha(rng)];
             rig1::<Complex, Complex>(rng, |r| bx!(FftFilter::new_engine(r, crate::dsp::ExactEngine::new(&taps))))
+        }
+        "fftfx" => {
+            // FftFilterFloat around the exact engine: the wrapper (inner streams, eof) against the model
+            let ntaps = rng.range(1, 40);
+            let taps: Vec<Complex> = (0..ntaps).map(|_| Complex::new((rng.range(0, 4) as i32 - 2) as f32, 0.0)).collect();
+            params = taps.iter().map(|t| t.re.to_bits() as u64 | ((t.im.to_bits() as u64) << 32)).collect();
+            alphabets = vec![int_f32_alpha()];
+            rig1::<f32, f32>(rng, |r| bx!(FftFilterFloat::new_engine(r, crate::dsp::ExactEngine::new(&taps))))
         }
         "fftfilter_f" => {
             let ntaps = rng.range(1, 30);
@@ -634,8 +657,10 @@ pub fn build_hand(name: &str, rng: &mut Rng) -> Built {
             Rig { block: Box::new(b), ins: vec![fi], outs: vec![pkt_drainer(o)] }
         }
         "quaddemod" => {
-            alphabets = vec![complex_alpha(rng)];
-            rig1::<Complex, f32>(rng, |r| bx!(QuadratureDemod::new(r, 1.5)))
+            alphabets = vec![if rng.chance(1, 2) { complex_alpha(rng) } else { complex_any_alpha(rng) }];
+            let gain = *rng.pick(&[1.5f32, 1.0, -0.25, 7957.747]);
+            params = vec![gain.to_bits() as u64];
+            rig1::<Complex, f32>(rng, |r| bx!(QuadratureDemod::new(r, gain)))
         }
         "fastfm" => {
             alphabets = vec![complex_alpha(rng)];
@@ -716,8 +741,29 @@ pub fn build_hand(name: &str, rng: &mut Rng) -> Built {
         }
         "vectorsink" => {
             alphabets = vec![(256, vec![])];
+            let max = *rng.pick(&[0usize, 1, 3, 100, 700, 4096, 5000, 1_000_000]);
+            // on the large streams the sink has room for everything: long windows are stored whole
+            let max = if BIG_CASE.load(std::sync::atomic::Ordering::SeqCst) { 1_000_000 } else { max };
+            params = vec![max as u64];
             let (fi, r) = feeder::<u8>(rng.below(5000));
-            Rig { block: Box::new(VectorSink::new(r, 1_000_000)), ins: vec![fi], outs: vec![] }
+            let b = VectorSink::new(r, max);
+            let h = b.hook();
+            Rig { block: Box::new(b), ins: vec![fi], outs: vec![hook_out(h)] }
+        }
+        "sigsrc_f" | "sigsrc_c" => {
+            // sample rate, frequency (also negative, above the sample rate, zero), amplitude
+            let samp = *rng.pick(&[50000.0f32, 48000.0, 1.0, 8000.0, 1e6]);
+            let freq = *rng.pick(&[1000.0f32, 1200.0, 0.0, -700.0, 0.25, 12345.678, 60000.0, 1e7, -3e6, 1e-3]);
+            let amp = *rng.pick(&[1.0f32, 0.5, 0.0, -2.0, 1e-20, 3.25]);
+            params = vec![samp.to_bits() as u64, freq.to_bits() as u64, amp.to_bits() as u64];
+            alphabets = vec![];
+            if name == "sigsrc_f" {
+                let (b, o) = SignalSourceFloat::new(samp, freq, amp);
+                Rig { block: Box::new(b), ins: vec![], outs: vec![drainer(o)] }
+            } else {
+                let (b, o) = SignalSourceComplex::new(samp, freq, amp);
+                Rig { block: Box::new(b), ins: vec![], outs: vec![drainer(o)] }
+            }
         }
         _ => panic!("unknown block {name}"),
     };
@@ -731,6 +777,8 @@ pub fn build_hand(name: &str, rng: &mut Rng) -> Built {
 }
 
 fn gen_inspecs(built: &Built, rng: &mut Rng, heavy_tags: bool) -> Vec<InSpec> {
+    // a sink that stores tags: always several tags per sample somewhere
+    let heavy_tags = heavy_tags || built.name == "vectorsink";
     // a packet input has no capacity of its own: size the data by the block's output stream, so that
     // the output does fill up
     let out_cap = built.rig.outs.iter().map(|o| o.cap()).filter(|c| *c != PKT_CAP).min().unwrap_or(1024);
@@ -747,6 +795,8 @@ fn gen_inspecs(built: &Built, rng: &mut Rng, heavy_tags: bool) -> Vec<InSpec> {
                 3 => rng.range(0, 3 * in_cap),
                 _ => rng.range(0, 700),
             };
+            // a case on large streams: more input than one stream holds (no extra random draw)
+            let len = if BIG_CASE.load(std::sync::atomic::Ordering::SeqCst) && len < in_cap { in_cap + len % 4000 } else { len };
             let mut pkts = vec![];
             if built.rig.ins[j].cap() == PKT_CAP {
                 let mut left = len;
@@ -767,6 +817,17 @@ fn gen_inspecs(built: &Built, rng: &mut Rng, heavy_tags: bool) -> Vec<InSpec> {
                 gen_tags(rng, len, heavy_tags)
             } else {
                 vec![]
+            };
+            // a sink that stores tags: more tags than samples on the first samples
+            let tags = if built.name == "vectorsink" && len > 0 {
+                let mut t = tags;
+                for k in 0..(20 + len % 30) {
+                    t.push((k % 2.min(len), 1 + (k as u64 % 3), 500 + k as u64));
+                }
+                t.sort_by_key(|x| x.0);
+                t
+            } else {
+                tags
             };
             if built.name == "audec" && j == 0 {
                 let data = au_input(rng, in_cap);
@@ -877,14 +938,30 @@ fn il2p_input(rng: &mut Rng) -> Option<(Vec<u64>, Vec<(usize, u64, u64)>)> {
     Some((data, tags))
 }
 
+/// blocks whose cases stay on one-page streams (slow per sample, or sized for one page)
+const NO_BIG: &[&str] = &["il2p", "wpcr", "midpointer", "cma", "symsync", "symsync_clk", "fftfilter", "fftfilter_f", "fftstream", "hilbert"];
+
 /// Model-free checks on the real block: (1) chunking independence — an adversarial
 /// drip-feed run and a greedy run of the same block on the same input deliver the same
 /// samples/packets (C08) and tags (C12); (2) the C09 acceptor on the adversarial trace.
+/// set by the caller for the first case of every block: that case runs on the large streams
+pub static FORCE_BIG: std::sync::atomic::AtomicBool = std::sync::atomic::AtomicBool::new(false);
+/// the case being generated runs on large streams: its inputs are longer than one of them
+static BIG_CASE: std::sync::atomic::AtomicBool = std::sync::atomic::AtomicBool::new(false);
+
 pub fn selfcheck(name: &str, rng: &mut Rng, steps: usize, heavy_tags: bool) -> Vec<String> {
+    // one case in ten runs on sixteen-page streams (windows beyond 8192 samples in the greedy run); the choice
+    // is made on a copy of the generator so that the other cases are what they were
+    let big = ({ let mut peek = rng.clone(); peek.below(10) == 0 } || FORCE_BIG.load(std::sync::atomic::Ordering::SeqCst))
+        && !NO_BIG.contains(&name);
+    BIG_CASE.store(big, std::sync::atomic::Ordering::SeqCst);
+    STREAM_BYTES.store(if big { 65536 } else { 4096 }, std::sync::atomic::Ordering::SeqCst);
     let mut rng_b = rng.clone();
     let built_a = build(name, rng);
     let built_b = build(name, &mut rng_b);
+    STREAM_BYTES.store(4096, std::sync::atomic::Ordering::SeqCst);
     let ins = gen_inspecs(&built_a, rng, heavy_tags);
+    BIG_CASE.store(false, std::sync::atomic::Ordering::SeqCst);
     let nin = built_a.rig.ins.len();
     let nout = built_a.rig.outs.len();
     let out_cap = built_a.rig.outs.iter().map(|o| o.cap()).min().unwrap_or(4096);
@@ -912,7 +989,10 @@ pub fn selfcheck(name: &str, rng: &mut Rng, steps: usize, heavy_tags: bool) -> V
         key = "panic";
     } else {
         for j in 0..nout {
-            if a.collected[j] != b.collected[j] {
+            // a source has no input to run out of: the two runs stop at different lengths, one is a prefix
+            let common = if nin == 0 { a.collected[j].len().min(b.collected[j].len()) } else { usize::MAX };
+            let (ca, cb) = (&a.collected[j][..common.min(a.collected[j].len())], &b.collected[j][..common.min(b.collected[j].len())]);
+            if ca != cb {
                 let la = a.collected[j].len();
                 let lb = b.collected[j].len();
                 let first = a.collected[j].iter().zip(&b.collected[j]).position(|(x, y)| x != y);
@@ -927,8 +1007,9 @@ pub fn selfcheck(name: &str, rng: &mut Rng, steps: usize, heavy_tags: bool) -> V
     let mut tverdict = "pass".to_string();
     if !a.panicked && !b.panicked {
         for j in 0..nout {
-            let mut ta = a.ctags[j].clone();
-            let mut tb = b.ctags[j].clone();
+            let common = if nin == 0 { a.collected[j].len().min(b.collected[j].len()) } else { usize::MAX };
+            let mut ta: Vec<_> = a.ctags[j].iter().filter(|t| t.0 < common).cloned().collect();
+            let mut tb: Vec<_> = b.ctags[j].iter().filter(|t| t.0 < common).cloned().collect();
             ta.sort();
             tb.sort();
             if ta != tb {
@@ -946,6 +1027,7 @@ pub fn selfcheck(name: &str, rng: &mut Rng, steps: usize, heavy_tags: bool) -> V
         Err(e) => format!("FAIL {e}"),
     };
     out.push(format!("!c09 {id}\t{c9}\t{}", if c9 == "pass" { String::new() } else { format!("{name}-verdict") }));
+    out.push(eof_sound_line(name, &id, nout, &a, &b));
     // C10 for the converters without a Lean model: the documented function on the real block
     if name == "v2s" && !a.panicked && !b.panicked {
         // vector-to-stream: the concatenation of the packets, nothing lost, nothing added
@@ -1430,7 +1512,28 @@ pub fn tight_selfcheck(name: &str, rng: &mut Rng) -> Vec<String> {
         Err(e) => format!("FAIL {e}"),
     };
     out.push(format!("!c09 {id}\t{c9}\t{}", if c9 == "pass" { String::new() } else { format!("{name}-tight-verdict") }));
+    out.push(eof_sound_line(name, &id, nout, &a, &b));
     out
+}
+
+/// eof() soundness (what both runners rely on to retire a block): once eof() has answered true after a wait
+/// verdict, further calls must not deliver anything — otherwise a runner that retires the block loses it
+fn eof_sound_line(name: &str, id: &str, nout: usize, a: &RunOut, b: &RunOut) -> String {
+    let mut ev = "pass".to_string();
+    for (which, r) in [("adversarial", a), ("greedy", b)] {
+        if let Some((call, at)) = &r.eof_true_at {
+            for j in 0..nout {
+                if r.produced_total[j] > at[j] {
+                    ev = format!(
+                        "FAIL {which} run: eof() answered true after call {call} with {} items delivered on output {j}; the calls after it delivered {} more (a runner retiring the block there loses them)",
+                        at[j],
+                        r.produced_total[j] - at[j]
+                    );
+                }
+            }
+        }
+    }
+    format!("!eofsound {id}\t{ev}\t{}", if ev == "pass" { String::new() } else { format!("{name}-eof-early") })
 }
 
 pub fn case(name: &str, rng: &mut Rng, steps: usize, heavy_tags: bool) -> String {
@@ -1470,6 +1573,17 @@ pub fn case(name: &str, rng: &mut Rng, steps: usize, heavy_tags: bool) -> String
                 let tags = gen_tags(rng, data.len(), heavy_tags);
                 return InSpec { pkts: vec![], len: data.len(), seed: 0, m: *m, tbl: tbl.clone(), tags, fixed: Some(data) };
             }
+            // a sink that stores tags: more tags than samples on the first samples
+            let tags = if built.name == "vectorsink" && len > 0 {
+                let mut t = tags;
+                for k in 0..(20 + len % 30) {
+                    t.push((k % 2.min(len), 1 + (k as u64 % 3), 500 + k as u64));
+                }
+                t.sort_by_key(|x| x.0);
+                t
+            } else {
+                tags
+            };
             InSpec { pkts: vec![], len, seed: rng.next() >> 8, m: *m, tbl: tbl.clone(), tags, fixed: None }
         })
         .collect() };
@@ -1505,11 +1619,13 @@ pub fn run(args: &[String]) -> Vec<String> {
     let only_block = arg(args, "--block");
     let mut out = Vec::new();
     let names: Vec<&str> = match set.as_str() {
-        "modelled" => SYNC_NAMES.iter().chain(ARITY_NAMES.iter()).chain(["skip", "delay", "resampler", "rtlsdr", "s2pdu", "totext", "audec", "zerocross", "zerocross_clk", "symsync", "symsync_clk", "v2s", "constsrc", "delayctl", "auenc", "fftstream_x"].iter()).copied().collect(),
+        "modelled" => SYNC_NAMES.iter().chain(ARITY_NAMES.iter()).chain(["skip", "delay", "resampler", "rtlsdr", "s2pdu", "totext", "audec", "zerocross", "zerocross_clk", "symsync", "symsync_clk", "v2s", "constsrc", "delayctl", "auenc", "fftstream_x", "nullsink", "vectorsink", "sigsrc_f", "sigsrc_c", "quaddemod", "fftfx"].iter()).copied().collect(),
         "sync" => SYNC_NAMES.to_vec(),
         "arity" => ARITY_NAMES.to_vec(),
         "hand" => HAND_NAMES.to_vec(),
         "dsp" => DSP_NAMES.to_vec(),
+        // the blocks of the two documented receive chains (C20)
+        "chain" => vec!["hilbert", "quaddemod", "fftfilter_f", "fftfilter", "addconst_f32", "symsync", "zerocross", "slicer", "nrzi", "descrambler", "hdlc", "resampler"],
         "every" => SYNC_NAMES.iter().chain(ARITY_NAMES.iter()).chain(HAND_NAMES.iter()).copied().collect(),
         _ => SYNC_NAMES.iter().chain(ARITY_NAMES.iter()).copied().collect(),
     };
@@ -1556,7 +1672,9 @@ pub fn run(args: &[String]) -> Vec<String> {
             None => names[i % names.len()],
         };
         if mode == "self" {
+            FORCE_BIG.store(i < names.len() && only_block.is_none(), std::sync::atomic::Ordering::SeqCst);
             out.extend(selfcheck(name, &mut r, steps, heavy));
+            FORCE_BIG.store(false, std::sync::atomic::Ordering::SeqCst);
         } else {
             out.push(case(name, &mut r, steps, heavy));
         }
